@@ -29,6 +29,7 @@ class CommentNode(Node):
     def __init__(self, token: TokenT, text: str) -> None:
         super().__init__(token)
         self.text = text
+        self.blank = True
 
     def __str__(self) -> str:
         assert isinstance(self.token, CommentToken)
